@@ -41,6 +41,10 @@ TObs == /\ IsEvent("Obs") /\ ref # <<>>
               \A k \in Keys(Ev.vals) \cap Keys(ref) : Close(Val(Ev.vals, k), Val(ref, k)))
         /\ C("same-selection-when-best-is-unique",
               (Ev.samekeys /\ Ev.cmpsel /\ UniqueBest(ref)) => Ev.sel = refsel)
+        \* (C20: the parallel wrapper derives its generator like the wrapped strategy and breaks ties over the
+        \*  same array, so for equal seeds the selections agree even among tied maxima)
+        /\ C("same-selection-for-equal-seeds",
+              ("eqseed" \in DOMAIN Ev /\ Ev.eqseed) => Ev.sel = refsel)
         /\ UNCHANGED <<ref, refsel>>
 
 TNext == TRef \/ TObs
